@@ -129,6 +129,9 @@ type c15Env struct {
 	selSigs    map[[2]uint64]phase0.BLSSignature  // (validator, subcommittee) -> selection signature handed out
 	nilSeen    int                                // requests that named a nil account
 	selDelay   int64                              // the signer takes this long over a batch of selection proofs
+	// local accounts (wallet keys held by vouch, signed for one at a time): those in signErr cannot sign at all
+	local   bool
+	signErr map[phase0.ValidatorIndex]bool
 }
 
 func newC15Env() *c15Env {
@@ -155,7 +158,49 @@ func (e *c15Env) registerSelectionRoots(slot phase0.Slot, maxSub uint64) {
 		r, err := (&altair.SyncAggregatorSelectionData{Slot: slot, SubcommitteeIndex: sc}).HashTreeRoot()
 		must(err)
 		e.selRoots[r] = sc
+		// a local account is handed the signing root instead
+		e.selRoots[c15SigningRoot(r, phase0.DomainType{0x08, 0, 0, 0}, phase0.Epoch(uint64(slot)/c15SPE))] = sc
 	}
+}
+
+// c15SigningRoot is the root a local account signs: the object root under the domain c15Domains gives.
+func c15SigningRoot(object phase0.Root, dt phase0.DomainType, epoch phase0.Epoch) phase0.Root {
+	d, _ := c15Domains{}.Domain(context.Background(), dt, epoch)
+	r, err := (&phase0.SigningData{ObjectRoot: object, Domain: d}).HashTreeRoot()
+	must(err)
+	return r
+}
+
+// c15LocalAcct is the same account as a key held in a wallet of vouch's own: it signs one root at a time (it is
+// neither a distributed account nor a multi-signer), and fails outright when it cannot sign.
+type c15LocalAcct struct{ *c15Acct }
+
+// the embedded account's batch and threshold methods are hidden behind others of the same name
+func (a *c15LocalAcct) SignGenericMulti()       {}
+func (a *c15LocalAcct) SignBeaconAttestations() {}
+func (a *c15LocalAcct) SigningThreshold(_ int)  {}
+
+func (a *c15LocalAcct) Sign(_ context.Context, data []byte) (e2types.Signature, error) {
+	if a.env.signErr[a.idx] {
+		return nil, errors.New("cannot sign when account is locked")
+	}
+	sig := c15MakeSig(a.idx, data, nil, 7)
+	var rq c15SignReq
+	rq.idx = a.idx
+	copy(rq.data[:], data)
+	if sc, known := a.env.selRoots[rq.data]; known {
+		a.env.selSigs[[2]uint64{uint64(a.idx), sc}] = sig
+	}
+	a.env.made[sig] = rq
+	return &c15Sig{b: sig}, nil
+}
+
+// acct hands an account out as the account manager would.
+func (t *c15Accounts) acct(a *c15Acct) e2wtypes.Account {
+	if a.env.local {
+		return &c15LocalAcct{a}
+	}
+	return a
 }
 
 func (e *c15Env) sign(idx phase0.ValidatorIndex, data, domain []byte) e2types.Signature {
@@ -276,7 +321,7 @@ func (t *c15Accounts) ValidatingAccountsForEpoch(_ context.Context, _ phase0.Epo
 	out := map[phase0.ValidatorIndex]e2wtypes.Account{}
 	for i, a := range t.all {
 		if !t.exited[i] {
-			out[i] = a
+			out[i] = t.acct(a)
 		}
 	}
 	return out, nil
@@ -286,7 +331,7 @@ func (t *c15Accounts) ValidatingAccountsForEpochByIndex(_ context.Context, _ pha
 	out := map[phase0.ValidatorIndex]e2wtypes.Account{}
 	for _, i := range idx {
 		if a, ok := t.all[i]; ok && !t.exited[i] {
-			out[i] = a
+			out[i] = t.acct(a)
 		}
 	}
 	return out, nil
@@ -295,7 +340,7 @@ func (t *c15Accounts) ValidatingAccountsForEpochByIndex(_ context.Context, _ pha
 func (t *c15Accounts) SyncCommitteeAccountsForEpoch(_ context.Context, _ phase0.Epoch) (map[phase0.ValidatorIndex]e2wtypes.Account, error) {
 	out := map[phase0.ValidatorIndex]e2wtypes.Account{}
 	for i, a := range t.all {
-		out[i] = a
+		out[i] = t.acct(a)
 	}
 	return out, nil
 }
@@ -304,7 +349,7 @@ func (t *c15Accounts) SyncCommitteeAccountsForEpochByIndex(_ context.Context, _ 
 	out := map[phase0.ValidatorIndex]e2wtypes.Account{}
 	for _, i := range idx {
 		if a, ok := t.all[i]; ok && !t.missing[i] {
-			out[i] = a
+			out[i] = t.acct(a)
 		}
 	}
 	return out, nil
@@ -321,10 +366,14 @@ type c15Duties struct {
 	positions map[phase0.ValidatorIndex][]phase0.CommitteeIndex
 	accts     map[phase0.ValidatorIndex]*c15Acct
 	asked     []phase0.Epoch
+	delay     int64 // the node takes this long over the answer
 }
 
 func (d *c15Duties) SyncCommitteeDuties(_ context.Context, opts *api.SyncCommitteeDutiesOpts) (*api.Response[[]*apiv1.SyncCommitteeDuty], error) {
 	d.asked = append(d.asked, opts.Epoch)
+	if d.delay > 0 {
+		mc.Sleep(d.delay)
+	}
 	out := []*apiv1.SyncCommitteeDuty{}
 	if uint64(opts.Epoch) < d.fork && d.strict {
 		return nil, errors.New("400: epoch is before the Altair fork")
@@ -617,6 +666,7 @@ type c15WinState struct {
 	endSlot    uint64   // observation ends at the start of this slot
 	reorgSlot  uint64   // first slot of the epoch in which the current dependent root changes (0: no reorg)
 	desc       string
+	lateStart  bool // vouch is started eleven seconds into the slot and the node takes two seconds over the sync committee duties
 	waited     bool // vouch waited for genesis and starts with the chain (clock at slot 0 of a chain with Altair from the start)
 }
 
@@ -676,10 +726,19 @@ func c15WindowBody(st *c15WinState, epp, fork, s0 uint64) {
 	if st.mode == "S" && s0 == 0 && fork == 0 {
 		st.waited = mc.Choose(2) == 1
 	}
+	if st.mode == "S" && e0 >= fork && !st.waited {
+		st.lateStart = mc.Choose(2) == 1
+	}
+	if st.lateStart {
+		mc.Sleep(int64(11 * time.Second))
+	}
 	w := c15Build(c15WorldCfg{spec: c15Spec(epp, fork, 16, 4, 16), startSlot: s0, positions: positions, delay: st.delay, waited: st.waited, before: func(w *c15World) {
 		w.duties.strict = st.strict
 		w.duties.member = st.membership
 		w.duties.armed = st.mode == "S" // mode D: the node has no duties for anybody while vouch starts
+		if st.lateStart {
+			w.duties.delay = int64(2 * time.Second)
+		}
 		if len(st.members) >= 2 {
 			// the last member has exited and is not yet withdrawable: still on sync committee duty
 			w.accts.exited = map[phase0.ValidatorIndex]bool{st.members[len(st.members)-1]: true}
@@ -731,8 +790,8 @@ func c15WindowBody(st *c15WinState, epp, fork, s0 uint64) {
 			ps = append(ps, fmt.Sprint(p))
 		}
 	}
-	st.desc = fmt.Sprintf("EPOCHS_PER_SYNC_COMMITTEE_PERIOD=%d SLOTS_PER_EPOCH=%d ALTAIR_FORK_EPOCH=%d, clock at the start of slot %d (epoch %d), mode %s (waited for genesis: %v), members %v (of several, the last has exited and is not yet withdrawable) in the committee of period(s) %s, strict-node=%v, current dependent root changes in the epoch of slot %d (0: never)",
-		epp, c15SPE, fork, s0, e0, st.mode, st.waited, st.members, strings.Join(ps, ","), st.strict, st.reorgSlot)
+	st.desc = fmt.Sprintf("EPOCHS_PER_SYNC_COMMITTEE_PERIOD=%d SLOTS_PER_EPOCH=%d ALTAIR_FORK_EPOCH=%d, clock at the start of slot %d (epoch %d), mode %s (waited for genesis: %v; started 11 s into the slot with duties that take 2 s: %v), members %v (of several, the last has exited and is not yet withdrawable) in the committee of period(s) %s, strict-node=%v, current dependent root changes in the epoch of slot %d (0: never)",
+		epp, c15SPE, fork, s0, e0, st.mode, st.waited, st.lateStart, st.members, strings.Join(ps, ","), st.strict, st.reorgSlot)
 }
 
 func c15WindowCheck(st *c15WinState, r *mc.Result) mc.Verdict {
@@ -759,6 +818,10 @@ func c15WindowCheck(st *c15WinState, r *mc.Result) mc.Verdict {
 		for s := lo; s <= hi; s++ {
 			switch {
 			case s < s0 || s >= st.endSlot:
+			case s == s0+1 && st.lateStart:
+				// the duties were obtained one second into this slot: it was in progress when vouch could first
+				// have set its job up, and is left open like the slot of the start
+				optional[s] = true
 			case s == s0 && st.mode == "S" && !st.waited:
 				// vouch is being started in this slot: whether the slot in progress is still served is left open
 				// (not so when it waited for genesis: the first slot begins with it)
@@ -869,7 +932,7 @@ type c15IndState struct {
 	// lateSlow: vouch is started eleven seconds into the slot and the signer takes six seconds over a batch of
 	// selection proofs: the proofs of the next slot are still being signed when that slot's message time comes
 	lateSlow  bool
-	states    [3]int // per member: 0 ok, 1 account missing, 2 root signature missing
+	states    [3]int // per member: 0 ok, 1 account missing, 2 root signature missing, 3 local account that cannot sign at all
 	positions map[phase0.ValidatorIndex][]phase0.CommitteeIndex
 	node      *c15Node
 	env       *c15Env
@@ -905,6 +968,12 @@ func c15IndBody(st *c15IndState, states [3]int) {
 				w.accts.missing[v] = true
 			case 2:
 				w.env.zeroRoot[v] = true
+			case 3:
+				w.env.local = true
+				if w.env.signErr == nil {
+					w.env.signErr = map[phase0.ValidatorIndex]bool{}
+				}
+				w.env.signErr[v] = true
 			}
 		}
 		for _, s := range st.slots {
@@ -919,7 +988,7 @@ func c15IndBody(st *c15IndState, states [3]int) {
 	defer w.cancel()
 	mc.Sleep(4*int64(c15SlotDur) - int64(time.Second) - mc.Now())
 	st.node, st.env = w.node, w.env
-	names := []string{"ok", "account missing", "root signature missing"}
+	names := []string{"ok", "account missing", "root signature missing", "local account that cannot sign"}
 	st.desc = fmt.Sprintf("members 1,2,3 with committee positions %v; member states [%s, %s, %s]; vouch started at slot %d, slots %v observed",
 		st.positions, names[states[0]], names[states[1]], names[states[2]], s0, st.slots)
 }
@@ -952,6 +1021,8 @@ func c15IndCheck(st *c15IndState, r *mc.Result) mc.Verdict {
 		cause = "missing-account" // (a missing account stops the batch before any signature is looked at)
 	} else if kinds[2] {
 		cause = "missing-signature"
+	} else if kinds[3] {
+		cause = "failing-local-account"
 	}
 	nmsg, ncon := 0, 0
 	subSize := c15IndSize / c15IndSubnets
@@ -984,7 +1055,12 @@ func c15IndCheck(st *c15IndState, r *mc.Result) mc.Verdict {
 			if !ok || rq.idx != val {
 				return fail("message/wrong-signature", "member %d's message for slot %d carries a signature that is not this member's", val, slot)
 			}
-			if rq.data != want {
+			if st.env.local {
+				// a local account signs the signing root of the head root under the sync committee domain
+				if rq.data != c15SigningRoot(want, phase0.DomainType{0x07, 0, 0, 0}, phase0.Epoch(slot/c15SPE)) {
+					return fail("message/wrong-root", "member %d's message for slot %d is not signed over the head root obtained in that slot (%#x)", val, slot, want[:9])
+				}
+			} else if rq.data != want {
 				return fail("message/wrong-root", "member %d's message for slot %d is signed over root %#x; the head root obtained in that slot is %#x", val, slot, rq.data[:9], want[:9])
 			}
 			// contributions: one per subcommittee this member is the selected aggregator of
@@ -1217,6 +1293,16 @@ func c15Units(tier string) []hx.Unit {
 				})
 			}
 		}
+	}
+	for _, states := range [][3]int{{0, 3, 0}, {3, 0, 0}, {0, 0, 3}} {
+		states := states
+		st := &c15IndState{}
+		units = append(units, hx.Unit{
+			Name:  fmt.Sprintf("C15/independence/local-accounts/states-%d%d%d", states[0], states[1], states[2]),
+			Cfg:   mc.Config{Fixed: true, Horizon: int64(6 * c15SlotDur)},
+			Body:  func() { c15IndBody(st, states) },
+			Check: func(r *mc.Result) mc.Verdict { return c15IndCheck(st, r) },
+		})
 	}
 	{
 		st := &c15IndState{lateSlow: true}
